@@ -175,13 +175,12 @@ where
             return Err(RadioError::InvalidBandwidthForFrequency);
         }
 
-        // Section 4.1.1.5 and 4.1.1.6
-        let bw_in_hz = u32::from(bandwidth);
-        let symbol_duration = 1000 / (bw_in_hz / (0x01u32 << spreading_factor_value(spreading_factor)?));
-        let mut low_data_rate_optimize = 0x00u8;
-        if symbol_duration > 16 {
-            low_data_rate_optimize = 0x01u8
-        }
+        // Section 4.1.1.5 and 4.1.1.6: mandated for symbol times of 16 ms and above, which for the
+        // LoRa bandwidths means from 16.384 ms (SF11 at 125 kHz) on. The former integer
+        // millisecond arithmetic left exactly those 16.384 ms pairs without it. Use the one
+        // decision the airtime calculation also uses.
+        let low_data_rate_optimize =
+            lora_modulation::BaseBandModulationParams::new(spreading_factor, bandwidth, coding_rate).ldro as u8;
 
         Ok(ModulationParams {
             spreading_factor,
